@@ -146,7 +146,7 @@ func concreteFrame(seed int64, idx int, f map[string]any) []byte {
 	switch f["k"] {
 	case "stun":
 		b := fill(20 + l)
-		binary.BigEndian.PutUint16(b[0:2], 0x0101) // Binding success response
+		binary.BigEndian.PutUint16(b[0:2], 0x0101)    // Binding success response
 		binary.BigEndian.PutUint16(b[2:4], uint16(l)) //nolint:gosec
 		binary.BigEndian.PutUint32(b[4:8], 0x2112A442)
 
@@ -155,7 +155,7 @@ func concreteFrame(seed int64, idx int, f map[string]any) []byte {
 		pad := (l + 3) / 4 * 4
 		b := fill(4 + pad)
 		binary.BigEndian.PutUint16(b[0:2], uint16(toInt(f["num"]))) //nolint:gosec
-		binary.BigEndian.PutUint16(b[2:4], uint16(l))              //nolint:gosec
+		binary.BigEndian.PutUint16(b[2:4], uint16(l))               //nolint:gosec
 		for i := 4 + l; i < len(b); i++ {
 			b[i] = 0
 		}
